@@ -9,8 +9,12 @@ import (
 	"context"
 	"fmt"
 	"math"
+	"math/rand"
 	"net"
 	"reflect"
+	"runtime"
+	"strings"
+	"sync"
 	"time"
 
 	"github.com/getlantern/bytemap"
@@ -126,11 +130,167 @@ func c20Behaves(c *fw.Ctx, orig, dec expr.Expr, what string) bool {
 	return true
 }
 
+// c20Marshal marshals v and checks the law "the bytes Marshal returned stay what they were": gRPC writes
+// them to the wire after Marshal has returned, possibly while the next message is already being
+// marshalled, so a result that a later Marshal call overwrites (shared / pooled buffer) corrupts
+// messages in flight. The last few results are remembered together with a private copy.
+type c20Marshalled struct {
+	got  []byte
+	copy []byte
+	what string
+}
+
+var c20Recent []c20Marshalled
+
+func c20Marshal(c *fw.Ctx, v interface{}, what string) ([]byte, error) {
+	b, err := rpc.Codec.Marshal(v)
+	if err != nil {
+		return b, err
+	}
+	for _, old := range c20Recent {
+		if !bytes.Equal(old.got, old.copy) {
+			c.Violate("c20-marshal-result-overwritten", "the bytes returned by Codec.Marshal for %s (%d bytes) were changed by a later Marshal of %s (%d bytes): messages still in flight are corrupted", old.what, len(old.copy), what, len(b))
+			c20Recent = nil
+			return b, err
+		}
+	}
+	c.Obs("marshal_results_rechecked", int64(len(c20Recent)))
+	c20Recent = append(c20Recent, c20Marshalled{got: b, copy: append([]byte(nil), b...), what: what})
+	if len(c20Recent) > 4 {
+		c20Recent = c20Recent[1:]
+	}
+	return b, err
+}
+
+// c20BigMessages: messages between 1 KB and 400 KB (long raw series, wide flat rows, large keys), marshalled
+// back to back and concurrently, each decoded and compared.
+func c20BigMessages(c *fw.Ctx) {
+	r := c.Rand
+	mk := func(rr *rand.Rand) (*rpc.RemoteQueryResult, string) {
+		size := 1 << (10 + rr.Intn(9))
+		switch rr.Intn(3) {
+		case 0:
+			seq := encoding.NewSequence(encoding.Width64bits, size/8)
+			rr.Read(seq[encoding.Width64bits:])
+			return &rpc.RemoteQueryResult{Key: bytemap.New(map[string]interface{}{"k": rr.Intn(1000)}), Vals: core.Vals{seq, seq[:encoding.Width64bits*2]}}, fmt.Sprintf("raw series of %d bytes", len(seq))
+		case 1:
+			vals := make([]float64, size/8)
+			for i := range vals {
+				vals[i] = rr.NormFloat64()
+			}
+			return &rpc.RemoteQueryResult{Row: &core.FlatRow{TS: rr.Int63(), Key: bytemap.New(map[string]interface{}{"k": rr.Intn(1000)}), Values: vals}}, fmt.Sprintf("flat row of %d values", len(vals))
+		default:
+			big := make([]byte, size)
+			for i := range big {
+				big[i] = byte('a' + rr.Intn(26))
+			}
+			return &rpc.RemoteQueryResult{Row: &core.FlatRow{TS: rr.Int63(), Key: bytemap.New(map[string]interface{}{"k": string(big), "n": rr.Intn(10)}), Values: []float64{1, 2}}}, fmt.Sprintf("flat row with a key of %d bytes", size)
+		}
+	}
+	same := func(in, out *rpc.RemoteQueryResult) bool {
+		if !bytes.Equal(in.Key, out.Key) || len(in.Vals) != len(out.Vals) || (in.Row == nil) != (out.Row == nil) {
+			return false
+		}
+		for i := range in.Vals {
+			if !bytes.Equal(in.Vals[i], out.Vals[i]) {
+				return false
+			}
+		}
+		if in.Row != nil && (in.Row.TS != out.Row.TS || !bytes.Equal(in.Row.Key, out.Row.Key) || !reflect.DeepEqual(in.Row.Values, out.Row.Values)) {
+			return false
+		}
+		return true
+	}
+	// back to back in one goroutine: marshal a burst, then decode all of them
+	for round := 0; round < c.Pick(20, 100) && !c.Violated(); round++ {
+		type sent struct {
+			in   *rpc.RemoteQueryResult
+			b    []byte
+			what string
+		}
+		var burst []sent
+		for k := 0; k < 2+r.Intn(4); k++ {
+			in, what := mk(r)
+			b, err := c20Marshal(c, in, what)
+			if err != nil {
+				c.Violate("c20-marshal-error", "cannot marshal %s: %v", what, err)
+				return
+			}
+			burst = append(burst, sent{in, b, what})
+		}
+		for _, m := range burst {
+			out := &rpc.RemoteQueryResult{}
+			if err := rpc.Codec.Unmarshal(m.b, out); err != nil || !same(m.in, out) {
+				c.Violate("c20-big-message", "%s marshalled in a burst of %d messages decodes differently (err %v)", m.what, len(burst), err)
+				return
+			}
+			c.Obs("big_messages_round_tripped", 1)
+		}
+	}
+	// concurrently from several goroutines (the rpc server marshals on one goroutine per stream)
+	var wg sync.WaitGroup
+	var mx sync.Mutex
+	bad := ""
+	for g := 0; g < 4; g++ {
+		wg.Add(1)
+		go func(seed int64) {
+			defer wg.Done()
+			rr := rand.New(rand.NewSource(seed))
+			for k := 0; k < c.Pick(40, 200); k++ {
+				in, what := mk(rr)
+				b, err := rpc.Codec.Marshal(in)
+				if err == nil {
+					runtime.Gosched()
+					out := &rpc.RemoteQueryResult{}
+					if err = rpc.Codec.Unmarshal(b, out); err == nil && !same(in, out) {
+						err = fmt.Errorf("decoded content differs")
+					}
+				}
+				if err != nil {
+					mx.Lock()
+					bad = fmt.Sprintf("%s marshalled while other goroutines marshal: %v", what, err)
+					mx.Unlock()
+					return
+				}
+			}
+		}(r.Int63())
+	}
+	wg.Wait()
+	if bad != "" {
+		c.Violate("c20-big-message-concurrent", "%s", bad)
+	}
+	c.Obs("concurrent_marshal_goroutines", 4)
+}
+
 func c20RoundTrips(c *fw.Ctx) {
 	r := c.Rand
 	n := c.Pick(400, 2500)
 	exprs, nontrivial := 0, 0
 	var sample []string
+	c20Recent = nil
+	c20BigMessages(c)
+	// an empty (not nil) key is a legitimate group key ("group by a dimension this row lacks"); nil means
+	// "no row in this message" to the leader's cluster query loop
+	{
+		in := &rpc.RemoteQueryResult{Key: bytemap.ByteMap{}, Vals: core.Vals{encoding.NewSequence(encoding.Width64bits, 2)}}
+		b, err := c20Marshal(c, in, "raw-series result with an empty key")
+		out := &rpc.RemoteQueryResult{}
+		if err == nil {
+			err = rpc.Codec.Unmarshal(b, out)
+		}
+		if err != nil || out.Key == nil || len(out.Vals) != 1 {
+			c.Violate("c20-empty-key", "a raw-series result with an empty (non-nil) key decodes with key %v (nil=%v), %d series, err %v: the leader takes a nil key for the end of a partition's results", out.Key, out.Key == nil, len(out.Vals), err)
+		}
+		in3 := &rpc.RemoteQueryResult{Row: &core.FlatRow{TS: 5, Key: bytemap.ByteMap{}, Values: []float64{0}}}
+		b, err = c20Marshal(c, in3, "flat row with an empty key and a zero value")
+		out3 := &rpc.RemoteQueryResult{}
+		if err == nil {
+			err = rpc.Codec.Unmarshal(b, out3)
+		}
+		if err != nil || out3.Row == nil || out3.Row.TS != 5 || len(out3.Row.Values) != 1 {
+			c.Violate("c20-empty-key", "a flat row with an empty key and the single value 0 decodes as %+v (err %v)", out3.Row, err)
+		}
+	}
 	for i := 0; i < n && !c.Violated(); i++ {
 		// ---- field lists
 		nf := 1 + r.Intn(4)
@@ -140,7 +300,7 @@ func c20RoundTrips(c *fw.Ctx) {
 			fields = append(fields, core.NewField(fmt.Sprintf("f%d", f), e))
 		}
 		in := &rpc.RemoteQueryResult{Fields: fields}
-		b, err := rpc.Codec.Marshal(in)
+		b, err := c20Marshal(c, in, "field list")
 		if err != nil {
 			c.Violate("c20-marshal-error", "cannot marshal fields %v: %v", fields, err)
 			break
@@ -192,7 +352,7 @@ func c20RoundTrips(c *fw.Ctx) {
 		row := &core.FlatRow{TS: gen.Base.UnixNano() + int64(r.Intn(1e9)), Key: key, Values: []float64{r.NormFloat64(), float64(r.Intn(10)), math.MaxFloat64, 0}}
 		stats := &common.QueryStats{NumPartitions: r.Intn(5), NumSuccessfulPartitions: r.Intn(5), LowestHighWaterMark: r.Int63(), HighestHighWaterMark: r.Int63(), MissingPartitions: []int{r.Intn(4), r.Intn(4)}}
 		in2 := &rpc.RemoteQueryResult{Key: key, Vals: core.Vals{seq, nil, encoding.Sequence{}}, Row: row, Stats: stats, Error: fmt.Sprintf("err %d", i), EndOfResults: r.Intn(2) == 0}
-		b, err = rpc.Codec.Marshal(in2)
+		b, err = c20Marshal(c, in2, "result")
 		if err != nil {
 			c.Violate("c20-marshal-error", "cannot marshal result: %v", err)
 			break
@@ -217,7 +377,7 @@ func c20RoundTrips(c *fw.Ctx) {
 		// ---- Query with typed subquery results
 		sq := [][]interface{}{{"a", "b"}, {1, 2, 3}, {1.5, true, nil}, {}}
 		q := &rpc.Query{SQLString: "SELECT * FROM t WHERE x = 'é\x00\"'", IsSubQuery: r.Intn(2) == 0, SubQueryResults: sq, IncludeMemStore: r.Intn(2) == 0, Unflat: r.Intn(2) == 0, Deadline: time.Unix(int64(r.Intn(2e9)), int64(r.Intn(1e9))), HasDeadline: r.Intn(2) == 0}
-		b, _ = rpc.Codec.Marshal(q)
+		b, _ = c20Marshal(c, q, "query")
 		q2 := &rpc.Query{}
 		if err := rpc.Codec.Unmarshal(b, q2); err != nil {
 			c.Violate("c20-unmarshal-error", "cannot unmarshal query: %v", err)
@@ -245,20 +405,20 @@ func c20RoundTrips(c *fw.Ctx) {
 		}
 		// ---- Insert / Point / Follow
 		ins := &rpc.Insert{Stream: "inbound", TS: row.TS, Dims: key, Vals: bytemap.New(map[string]interface{}{"x": 1.5, "n": 3}), EndOfInserts: r.Intn(2) == 0}
-		b, _ = rpc.Codec.Marshal(ins)
+		b, _ = c20Marshal(c, ins, "insert")
 		ins2 := &rpc.Insert{}
 		if err := rpc.Codec.Unmarshal(b, ins2); err != nil || !reflect.DeepEqual(ins, ins2) {
 			c.Violate("c20-insert", "insert message decoded differently (%v): sent %+v, got %+v", err, ins, ins2)
 		}
 		pt := &rpc.Point{Data: []byte{1, 2, 3, byte(i)}, Offset: wal.NewOffset(int64(r.Intn(1e9)), int64(r.Intn(1e6)))}
-		b, _ = rpc.Codec.Marshal(pt)
+		b, _ = c20Marshal(c, pt, "point")
 		pt2 := &rpc.Point{}
 		if err := rpc.Codec.Unmarshal(b, pt2); err != nil || !bytes.Equal(pt.Data, pt2.Data) || !bytes.Equal(pt.Offset, pt2.Offset) {
 			c.Violate("c20-point", "point decoded differently (%v)", err)
 		}
 		fo := &common.Follow{FollowerID: common.FollowerID{Partition: r.Intn(4), ID: r.Intn(4)}, Stream: "inbound", EarliestOffset: wal.NewOffset(5, 6),
 			Partitions: map[string]*common.Partition{"a|b": {Keys: []string{"a", "b"}, Tables: []*common.PartitionTable{{Name: "t", Offsets: common.OffsetsBySource{0: wal.NewOffset(1, 2), 9: wal.NewOffset(3, 4)}}}}}}
-		b, _ = rpc.Codec.Marshal(fo)
+		b, _ = c20Marshal(c, fo, "follow")
 		fo2 := &common.Follow{}
 		if err := rpc.Codec.Unmarshal(b, fo2); err != nil || !reflect.DeepEqual(fo, fo2) {
 			c.Violate("c20-follow", "follow message decoded differently (%v): sent %+v, got %+v", err, fo, fo2)
@@ -283,8 +443,23 @@ func c20EndToEnd(c *fw.Ctx) {
 	span := time.Duration(spanP) * t.Res
 	retention := span + t.Res*time.Duration(2+r.Intn(4))
 	defs := defsFor(specs, nil, func(*ref.TableSpec) time.Duration { return retention })
+	// a second table keeps every dimension: wide rows (CROSSTAB over a dimension with hundreds of values) and
+	// rows with large keys cross the transport back to back
+	defs = append(defs, dbh.TableDef{Name: "tw", SQL: fmt.Sprintf("SELECT SUM(x) AS sx, MAX(y) AS my FROM inbound GROUP BY period(%v)", t.Res), Retention: retention, Stream: "inbound"})
 	n := 40 + r.Intn(160)
 	points := gen.Points(r, n, span, t.Res)
+	wide := r.Intn(2) == 0
+	if wide {
+		nWide := 200 + r.Intn(1300)
+		bigLen := 1 << (8 + r.Intn(8))
+		for i := 0; i < nWide; i++ {
+			p := ref.Point{TS: gen.Timestamp(r, span, t.Res), Dims: map[string]interface{}{"wide": fmt.Sprintf("w%05d", i), "s": gen.StrVals[i%len(gen.StrVals)]}, Vals: map[string]interface{}{"x": float64(i), "y": float64(i % 17)}}
+			if i%97 == 0 {
+				p.Dims["big"] = strings.Repeat(string(rune('a'+i%26)), bigLen)
+			}
+			points = append(points, p)
+		}
+	}
 	emb, err := dbh.Open(c.Dir+"/embedded", defs, dbh.Opts{VirtualTime: true})
 	if err != nil {
 		c.Violate("open", "cannot open db: %v", err)
@@ -364,6 +539,10 @@ func c20EndToEnd(c *fw.Ctx) {
 	queries := []string{"SELECT * FROM t"}
 	for len(queries) < nq {
 		queries = append(queries, genQuery(r, d, qOpts{noLimit: true}).SQL)
+	}
+	if wide {
+		queries = append(queries, "SELECT sx FROM tw GROUP BY CROSSTAB(wide)", "SELECT * FROM tw GROUP BY s, CROSSTAB(wide)", "SELECT * FROM tw", "SELECT sx, my FROM tw GROUP BY big, s", "SELECT my FROM tw GROUP BY period("+(t.Res*time.Duration(spanP)).String()+"), CROSSTAB(wide)")
+		c.Obs("wide_row_datasets", 1)
 	}
 	for _, q := range queries {
 		if c.Violated() {
